@@ -608,6 +608,7 @@ def scenario(arg):
 
 def run(tier, seed, work):
     res = vp.Result("C15", tier, seed, "fault_enumeration")
+    res.after_error_routes = ['failed_runs_followed_by_a_repaired_one']      # routes added in round 12 (a handled failure followed by ordinary work): must have observed something
     cargo_libcnb = vp.build_cargo_libcnb()
     shim = vp.build_shim()
     n = 6 if tier == "quick" else 40
@@ -621,6 +622,7 @@ def run(tier, seed, work):
                        "every generated workspace has an ignore file listing target/ and the output directories (quantifier)",
                        "the sandbox runs as root, so stale content that is undeletable for the packaging user cannot be produced and is not explored",
                        "crash points = every (quick: up to 24 sampled) mutating libc call of the cargo-libcnb process beneath the package directory; the run is killed with _exit before the call"]
+    res.required = list(getattr(res, "required", [])) + res.after_error_routes
     return res
 
 
